@@ -61,7 +61,7 @@ thread_local! {
     static ENTROPY: RefCell<Rng> = RefCell::new(Rng::new(0));
     static WALL_BASE: RefCell<Option<tokio::time::Instant>> = RefCell::new(None);
     static IN_CLOCK: Cell<bool> = Cell::new(false);
-    pub(crate) static PANIC_LOG: RefCell<Vec<String>> = RefCell::new(Vec::new());
+    pub(crate) static PANIC_LOG: RefCell<Vec<(Option<tokio::task::Id>, String)>> = RefCell::new(Vec::new());
     pub(crate) static ENTROPY_CALLS: Cell<u64> = Cell::new(0);
     pub(crate) static CLOCK_CALLS: Cell<u64> = Cell::new(0);
 }
@@ -132,7 +132,7 @@ fn install_panic_hook() {
                 "<non-string panic>".to_string()
             };
             let recorded = PANIC_LOG
-                .try_with(|p| p.borrow_mut().push(format!("{} @ {}", msg, loc)))
+                .try_with(|p| p.borrow_mut().push((tokio::task::try_id(), format!("{} @ {}", msg, loc))))
                 .is_ok();
             let active = SIM_ACTIVE.try_with(|a| a.get()).unwrap_or(false);
             if !(active && recorded && QUIET_PANICS.load(Ordering::Relaxed)) {
@@ -163,11 +163,23 @@ where
     F: FnOnce() -> Fut + Send + 'static,
     Fut: Future<Output = T>,
 {
+    run_sim_timeout(seed, 60, f)
+}
+
+/// As run_sim, but gives up (leaking the stuck thread) after `secs` wall seconds: Err("HANG").
+pub(crate) fn run_sim_timeout<T, F, Fut>(seed: u64, secs: u64, f: F) -> Result<T, String>
+where
+    T: Send + 'static,
+    F: FnOnce() -> Fut + Send + 'static,
+    Fut: Future<Output = T>,
+{
     install_panic_hook();
+    let (tx, rx) = std::sync::mpsc::channel::<T>();
     let h = std::thread::Builder::new()
         .name(format!("sim-{:x}", seed))
         .stack_size(8 << 20)
         .spawn(move || {
+            let tx = tx;
             SIM_ACTIVE.with(|a| a.set(true));
             ENTROPY.with(|e| *e.borrow_mut() = Rng::new(mix(seed, 0x4841_5348)));
             let mut sb = [0u8; 32];
@@ -191,10 +203,18 @@ where
             drop(rt);
             crate::gate::uninstall();
             SIM_ACTIVE.with(|a| a.set(false));
-            out
+            let _ = tx.send(out);
         })
         .map_err(|e| format!("spawn: {}", e))?;
-    h.join().map_err(|e| {
+    match rx.recv_timeout(std::time::Duration::from_secs(secs)) {
+        Ok(v) => {
+            let _ = h.join();
+            return Ok(v);
+        }
+        Err(std::sync::mpsc::RecvTimeoutError::Timeout) => return Err("HANG".to_string()),
+        Err(std::sync::mpsc::RecvTimeoutError::Disconnected) => {}
+    }
+    h.join().map(|_| unreachable!()).map_err(|e| {
         if let Some(s) = e.downcast_ref::<String>() {
             format!("sim thread panicked: {}", s)
         } else if let Some(s) = e.downcast_ref::<&str>() {
@@ -205,6 +225,6 @@ where
     })
 }
 
-pub(crate) fn take_panic_log() -> Vec<String> {
+pub(crate) fn take_panic_log() -> Vec<(Option<tokio::task::Id>, String)> {
     PANIC_LOG.with(|p| std::mem::take(&mut *p.borrow_mut()))
 }
